@@ -48,7 +48,7 @@ ArgKind(e) == CASE e \in IndexEvents -> "idx" [] e \in ProgressEvents -> "delta"
 (* the entry func (ToNoChange); "REC" = stay, no entry func (ToJustRecord); "INV" = no row: the  *)
 (* event is logged and dropped, not applied, not announced. A specific From overrides FromAny.   *)
 Dest(e, s) ==
-  CASE e = "Open"   -> "Requested"
+  CASE e = "Open"   -> IF s \in Cleanup THEN "REC" ELSE "Requested"
     [] e = "Accept" -> IF s = "Requested" THEN "Queued" ELSE IF s = "AwaitingAcceptance" THEN "Ongoing" ELSE "INV"
     [] e = "TransferInitiated" -> IF s = "Requested" THEN "AwaitingAcceptance" ELSE IF s = "Queued" THEN "Ongoing"
                                   ELSE IF s = "Ongoing" THEN "REC" ELSE "INV"
@@ -67,17 +67,17 @@ Dest(e, s) ==
     [] e = "ResumeInitiator" -> IF s \in PauseStates \cup {"ResponderCompleted","ResponderFinalizing"} THEN "REC" ELSE "INV"
     [] e = "ResumeResponder" -> IF s \in PauseStates \cup {"TransferFinished"} THEN "REC"
                                 ELSE IF s = "Finalizing" THEN "Completing" ELSE "INV"
-    [] e = "FinishTransfer" -> IF s \in {"Failing","Cancelling"} THEN "REC"
+    [] e = "FinishTransfer" -> IF s \in Cleanup THEN "REC"
                                ELSE IF s = "ResponderCompleted" THEN "Completing"
                                ELSE IF s = "ResponderFinalizing" THEN "ResponderFinalizingTransferFinished"
                                ELSE IF s = "AwaitingAcceptance" THEN "Completing" ELSE "TransferFinished"
     [] e = "ResponderBeginsFinalization" ->
-                               IF s \in {"Failing","Cancelling","ResponderFinalizing","ResponderFinalizingTransferFinished"} THEN "REC"
+                               IF s \in Cleanup \cup {"ResponderFinalizing","ResponderFinalizingTransferFinished"} THEN "REC"
                                ELSE IF s = "TransferFinished" THEN "ResponderFinalizingTransferFinished" ELSE "ResponderFinalizing"
-    [] e = "ResponderCompletes" -> IF s \in {"Failing","Cancelling"} THEN "REC"
+    [] e = "ResponderCompletes" -> IF s \in Cleanup THEN "REC"
                                ELSE IF s \in {"TransferFinished","ResponderFinalizingTransferFinished"} THEN "Completing"
                                ELSE "ResponderCompleted"
-    [] e = "BeginFinalizing" -> "Finalizing"
+    [] e = "BeginFinalizing" -> IF s \in Cleanup THEN "REC" ELSE "Finalizing"
     [] e = "Complete" -> "Completing"
     [] e = "CleanupComplete" -> IF s \in Cleanup THEN TerminalOf(s) ELSE "INV"
     [] OTHER -> "INV"
